@@ -19,3 +19,5 @@ package encoding
 //@   after call ReadWriter).Read: n = len(res0)
 //@   assert call DecodeFrom: c.maxMessageSize == 0 || n <= c.maxMessageSize
 //@   ensures imp(result1 == nil, c.maxMessageSize == 0 || n <= c.maxMessageSize)
+
+//@ guarded[C09] counter.RWMutex: byteCount, messageCount
